@@ -164,7 +164,7 @@ Inductive shape :=
 | WritesMap | CollectThenSort | KeyedLookup | ExistsTest | CommutativeAcc | PerElementWrite
 | CommutingWrites | Singleton | NoEffect
 | InspectedHarmless           (* allow-listed after inspection, translate/c09/allowlist.json *)
-| KnownSensitive              (* allow-listed as a recorded finding *)
+| KnownSensitive              (* allow-listed as a recorded finding: NOT order-insensitive, breaks the sweep *)
 | CollectDerivedSort           (* collected elements are not the keys themselves, or sorted through a comparator *)
 | OrderSensitiveAppend | StringConcat | LastWriteWins | MultiKeyMatch | FirstMatchAmbiguous
 | DerivedKeyWrite | Unknown.
